@@ -17,6 +17,9 @@
        token, never a clean end caused by a fault, never a crash.
      * C20_run_prefix / C20_stream_fault_prefix: a run (which stops at the first error) yields the
        complete fault-free token list, or a proper prefix of it followed by OErr E_Io.
+     * C20_persistent_errors_call / C20_persistent_errors_run / C20_stream_fail_first: while the Read is failing, no call
+       reports a clean end or Eof, a call that still returns a token did not touch the Read, and
+       the run ends with the I/O error.
      * C20_position_le_delivered_reader: position + buffered = delivered is kept by every call
        into whatever reader it returns, hence position <= bytes delivered, for every schedule.
      * C20_next_keeps_stream: every result of next_opt (token, end, ANY error) carries a reader
@@ -77,6 +80,38 @@ Theorem C20_position_new : forall capv input sch,
   fill_inv (rbw (reader_new capv input sch)) (rrd (reader_new capv input sch)).
 Proof. exact fill_inv_new. Qed.
 
+(* ---------- a failing Read ---------- *)
+(* While the next event of the schedule is Fail (cap > 0 = a real buffer): a call returns a
+   token only from already-buffered bytes, without touching the Read; it never reports a clean
+   end; the only errors are E_Io (the failed read, schedule advanced by that one event) and
+   BufferFull (the Read was not called). *)
+Theorem C20_persistent_errors_call : forall fuel r tl,
+  sched (rrd r) = Fail :: tl -> 0 < cap (rbw r) ->
+  match next_opt fuel r with
+  | NTok _ r' => rrd r' = rrd r /\ cap (rbw r') = cap (rbw r)
+  | NEnd _ => False
+  | NErr e r' => (e = E_Io /\ rrd r' = rd_after_fail (rrd r)) \/ (e = E_BufferFull /\ rrd r' = rrd r)
+  | NCrash _ => True
+  end.
+Proof. exact next_opt_failing. Qed.
+Print Assumptions C20_persistent_errors_call.
+
+Theorem C20_persistent_errors_run : forall input, wf_bytes input -> forall n fuel r start sref tl,
+  rokf input r -> srel r start sref ->
+  length sref < n -> length input + 2 <= fuel ->
+  capok (rbw r) (rrd r) (snd (rr start sref)) ->
+  sched (rrd r) = Fail :: tl -> 0 < cap (rbw r) ->
+  exists pre suf p,
+    run_next n fuel r = (map OTok pre ++ [OErr E_Io], p) /\
+    fst (fst (rr start sref)) = map OTok pre ++ suf /\ suf <> [] /\ p <= length input.
+Proof. exact persistent_run. Qed.
+Print Assumptions C20_persistent_errors_run.
+
+Theorem C20_stream_fail_first : forall input capv tl, 0 < capv ->
+  run_stream capv (Fail :: tl) input = ([OErr E_Io], 0).
+Proof. exact stream_fail_first. Qed.
+Print Assumptions C20_stream_fail_first.
+
 (* ---------- non-vacuity ---------- *)
 (* "a=b " read through an 8-byte buffer; the Read delivers 2 bytes, then fails, then delivers
    the rest.  The first call succeeds although a Fail is scheduled later; the second call hits
@@ -114,3 +149,18 @@ Proof. split; [vm_compute; reflexivity|]. split; [vm_compute; reflexivity|]. vm_
 Example C20_ex_run_unreached_fault :
   run_stream 8 [Data 10; Data 10; Fail] ex_input = (tokens_of ex_input, length ex_input - leftover ex_input).
 Proof. vm_compute. reflexivity. Qed.
+
+(* the hypotheses of C20_persistent_errors_run hold at ex_r1 (the Read is failing, one operator
+   byte is buffered but undecided): the run from there is the I/O error *)
+Example C20_ex_persistent :
+  sched (rrd ex_r1) = Fail :: [Data 10] /\ 0 < cap (rbw ex_r1) /\
+  rokf ex_input ex_r1 /\ srel ex_r1 false [61; 98; 32]%N /\
+  capok (rbw ex_r1) (rrd ex_r1) (snd (rr false [61; 98; 32]%N)) /\
+  run_next 4 20 ex_r1 = ([OErr E_Io], 1) /\
+  fst (fst (rr false [61; 98; 32]%N)) = [OTok (ROp Equal); OTok (RUnq [98%N]); OEnd].
+Proof.
+  split; [reflexivity|]. split; [cbn; repeat constructor|]. split.
+  { split; [exists [97%N]; split; reflexivity|right; cbn; repeat constructor]. }
+  split; [left; split; reflexivity|]. split; [right; vm_compute; split; repeat constructor|].
+  split; vm_compute; reflexivity.
+Qed.
